@@ -116,6 +116,9 @@ func runNotifyCase(init int64, specs []string, sched []string) string {
 				if r := waitArrive(ns.threads[i], 2*time.Second); strings.HasPrefix(r, "done:") {
 					ns.threads[i].result, ns.threads[i].inPark = r[5:], false
 				}
+			} else if i < len(ns.threads) && ns.threads[i].kind == 'w' && ns.threads[i].result == "" {
+				// the context ends before the waiter is parked: Wait only looks at it in its final select
+				ns.threads[i].cancel()
 			}
 			continue
 		}
